@@ -302,7 +302,7 @@ def adc(img, gain, saturation_capacity=None, warn_saturate=False, dtype=None):
                 warnings.warn('Frame has saturated pixels.')
 
         # Apply the saturation limit
-        img[img > saturation_capacity] = saturation_capacity
+        img = np.where(img > saturation_capacity, saturation_capacity, img)
 
     # Determine the polynomial order
     gain = np.asarray(gain)
